@@ -364,6 +364,12 @@ func initBuilders() {
 		return &Input{Name: "igc", IGC: spareB([]byte(igcText)), Layout: geom.Layout(5),
 			T: geom.NewLineStringFlat(geom.Layout(5), spare([]float64{7.5, 46.25, 1000, 490273261, 990, 7.6, 46.3, 1010, 490273262, 1000}))}
 	}})
+	// a track with fixes the format cannot hold as they are (longitude, latitude and altitude out
+	// of range, a fractional second): the encoder clamps what it WRITES, not what it was given
+	builders = append(builders, builder{"igc-out-of-range", func() *Input {
+		return &Input{Name: "igc-out-of-range", IGC: spareB([]byte(igcText)), Layout: geom.Layout(5),
+			T: geom.NewLineStringFlat(geom.Layout(5), spare([]float64{190.5, 46.25, -20, 490273261.75, 990, -181, -95.5, 20000, 490273262, 1000, 7.6, 91, 1010, 490273263, 1000}))}
+	}})
 }
 
 // InputForModel builds the input of a geometry model: the live geometry (fresh storage) and its
@@ -691,7 +697,7 @@ func Registry() []Fn {
 			}
 			return string(b)
 		}},
-		{"igc.Encode", func(in *Input) bool { return in.Name == "igc" }, func(in *Input) string {
+		{"igc.Encode", func(in *Input) bool { return strings.HasPrefix(in.Name, "igc") }, func(in *Input) string {
 			var buf bytes.Buffer
 			err := igc.NewEncoder(&buf, igc.A("XXX")).Encode(in.T.(*geom.LineString))
 			return fmt.Sprintf("%s %v", buf.String(), err)
